@@ -77,6 +77,10 @@ func (f *Fix) mkChannel(n int, clientID, hubChan, cpChan string) {
 // must exist and is deleted, then the callback; a callback error fails (reverts) the whole message.)
 func (f *Fix) ibcRecv(pkt channeltypes.Packet, proofHeight uint64, relayer sdk.AccAddress) (res string) {
 	ck := f.App.IBCKeeper.ChannelKeeper
+	// core RecvPacket checks the channel state before anything else (OPEN / FLUSHING / FLUSHCOMPLETE)
+	if !f.chanAccepts(pkt.DestinationPort, pkt.DestinationChannel) {
+		return "chanClosed"
+	}
 	if _, found := ck.GetPacketReceipt(f.Ctx, pkt.DestinationPort, pkt.DestinationChannel, pkt.Sequence); found {
 		return "replay"
 	}
@@ -111,6 +115,22 @@ func (f *Fix) ibcRecv(pkt channeltypes.Packet, proofHeight uint64, relayer sdk.A
 		return "err"
 	}
 	return res
+}
+
+// chanAccepts: the channel end is in a state in which core IBC accepts packets / acknowledgements
+func (f *Fix) chanAccepts(port, channel string) bool {
+	ch, ok := f.App.IBCKeeper.ChannelKeeper.GetChannel(f.Ctx, port, channel)
+	return ok && (ch.State == channeltypes.OPEN || ch.State == channeltypes.FLUSHING || ch.State == channeltypes.FLUSHCOMPLETE)
+}
+
+// setChanState writes the channel end's state (CLOSED is what ChanCloseConfirm / ChanCloseInit do)
+func (f *Fix) setChanState(port, channel string, st channeltypes.State) {
+	ch, ok := f.App.IBCKeeper.ChannelKeeper.GetChannel(f.Ctx, port, channel)
+	if !ok {
+		f.T.Fatalf("no channel %s", channel)
+	}
+	ch.State = st
+	f.App.IBCKeeper.ChannelKeeper.SetChannel(f.Ctx, port, channel, ch)
 }
 
 func (f *Fix) deleteCommitment(ctx sdk.Context, pkt channeltypes.Packet) {
